@@ -193,4 +193,37 @@ example : ∃ out, mapPipeline exTree { dropLevel := some 1, chunkSize := 2, nPr
       [7, 3, 9] [0, 1, 2] [1, 0] rfl rfl (by rfl) exTree_accepted.1 exTree_accepted.2 (exVote_ok _) rfl
       (by decide) (by decide) (by decide) (by decide)
 
+/-- "this also holds when the taxonomy is flattened or a level is dropped for the
+run" — BOTH at once (`C01.flatten_drop_path`), for every validator-accepted
+stored taxonomy and every level `drop_level` accepts: the run never fails,
+returns one record per cell, each a root-to-leaf path of the STORED taxonomy,
+every level above the leaf level flagged not directly assigned. -/
+theorem flatten_drop_path_of_validate {κ} (t0 t' : RawTree) (cfg : Config) (vote : Oracle κ)
+    (l ll : Level) (ids : List CellId) (cells : List κ) (order : List Nat)
+    (hdrop : t0.dropLevel l = .ok t') (hleaf : t0.leafLevel = some ll)
+    (hval : t0.validate = .ok ()) (hd : DictOK t0) (hv : VoteOK t0.flatten vote)
+    (hlen : ids.length = cells.length) (hnd : ids.Nodup)
+    (hproc : 1 ≤ cfg.nProc) (hcs : 1 ≤ cfg.chunkSize)
+    (horder : order.Perm (List.range
+      (chunks cells.length (effChunk cells.length cfg.nProc cfg.chunkSize)).length)) :
+    ∃ out, mapPipeline t0 { cfg with dropLevel := some l, flatten := true } vote ids cells order
+        = .ok out ∧ out.length = cells.length ∧
+      ∀ o ∈ out, ∃ path : Level → Node,
+        (∀ cp ∈ pairsOf t0.hierarchy.reverse,
+          t0.childToParent cp.1 (path cp.1) = some (path cp.2)) ∧
+        ∀ x ∈ t0.hierarchy, path x ∈ t0.nodesAt x ∧
+          ∃ e', o.levels.lookup x = some e' ∧ e'.assignment = path x ∧
+            (x ≠ ll → e'.direct = some false ∧ e'.ru = none) := by
+  obtain ⟨hm, _⟩ := dropLevel_hierarchy hdrop
+  obtain ⟨pre, cl, post, hs⟩ := split_of_mem_ne_getLast hm (dropLevel_not_leaf hdrop)
+  exact flatten_drop_path t0 t' cfg vote l cl ll pre post ids cells order hdrop hs hleaf
+    (wfb_of_validate hval hd) hv hlen hnd hproc hcs horder
+
+example : ∃ out, mapPipeline exTree { dropLevel := some 1, flatten := true, chunkSize := 2, nProc := 2 }
+    exVote [7, 3, 9] [0, 1, 2] [1, 0] = .ok out ∧ out.length = 3 :=
+  (fun ⟨out, h1, h2, _⟩ => ⟨out, h1, h2⟩) <|
+    flatten_drop_path_of_validate exTree exDropped { chunkSize := 2, nProc := 2 } exVote 1 2
+      [7, 3, 9] [0, 1, 2] [1, 0] (by rfl) (by decide) exTree_accepted.1 exTree_accepted.2
+      (exVote_ok _) rfl (by decide) (by decide) (by decide) (by decide)
+
 end CTM.C01
